@@ -114,10 +114,11 @@ class History:
         self.refused = []
         self.rebuilds = 0
 
-    def reopen(self):
-        """Master the image and continue the history on a fresh object that opened it; recorded
-        in the op list as the marker {'op': 'reopen'} (driver.replay understands it)."""
-        s2, out = driver.advance(self.sess, {'op': 'reopen'})
+    def reopen(self, reuse=False):
+        """Master the image and continue the history on a fresh object that opened it (reuse: on
+        the same object after close()); recorded in the op list as the marker {'op': 'reopen'}
+        (driver.replay understands it)."""
+        s2, out = driver.advance(self.sess, {'op': 'reopen', 'reuse': True} if reuse else {'op': 'reopen'})
         if not out.ok:
             return False
         self.sess = s2
